@@ -131,5 +131,11 @@ func props() map[string]*PropSpec {
 		Rule:    "clock scripts (regressions, repeats, jumps, 0 and 2^32-1) on the stub epoch notifier inside seeded histories plus a bounded enumeration of all scripts up to length 4 over a small epoch domain and the 32-bit boundaries; IsActive of all 23 registered functions is compared with the model after every notification and every restart; every call goes through container.Get(name) and is judged by the contract of that name",
 		MustHit: []string{"epoch-regression", "epoch-repeat", "epoch-jump", "node-restart", "inactive"},
 		Faults:  "epoch regressions, repeats, jumps, node restart"})
+	// ALL is not a property: it is the development tool used when testing seeded changes that may break
+	// any property (a balanced mix with every probe kind; any violation of any property is reported)
+	add(&PropSpec{ID: "ALL", Level: "exploration", Steps: [2]int{40, 200}, QuickN: 32000, ThorN: 800000,
+		Profile: base().With(map[string]float64{"probe:faults": 0.06, "probe:gas": 0.04, "probe:double": 0.05, "ev:corrupt": 2, "ev:sched": 2.5, "ev:epoch": 2.5, "ev:restart": 1,
+			"ev:redeliver": 1.5, "ev:upgrade": 1, "tx:skv": 5, "p:adv-gas": 0.18, "sc:setrole-again": 0.3}),
+		Rule: "development tool: balanced mix, any violation of any property"})
 	return m
 }
